@@ -84,6 +84,15 @@ namespace adept {
 	  throw index_out_of_bounds("Expression added to array with \"<<\" does not match size of previous objects on row"
 				    ADEPT_EXCEPTION_LOCATION);
 	}
+	// Check that the object fits in the array at the current
+	// position, otherwise it would be written beyond the end
+	for (int i = 0; i < E::rank; ++i) {
+	  if (coords_[i+(Rank-E::rank)] + xx.dimension(i)
+	      > size_[i+(Rank-E::rank)]) {
+	    throw index_out_of_bounds("Expression added to array with \"<<\" extends beyond the end of the array"
+				      ADEPT_EXCEPTION_LOCATION);
+	  }
+	}
 	// Add the object to the array and increment the final index
 	ExpressionSize<Rank> i_lhs(coords_);
 	ExpressionSize<E::rank> i_rhs(0);
